@@ -194,6 +194,52 @@ pub fn run(ctx: &mut Ctx) {
     }
     ctx.samples.push(json!({"sub": sub, "what": "typed sweep", "raws_decoded": total, "example": "type 1 longitude raw 0x8000000 (most negative) -> expected -223.696213 degrees"}));
 
+    // (b2) landmarks of every coordinate field, on every build, through the generic path: every whole degree the
+    // field can express (both signs, beyond +-180 / +-90 too), every power of two and its two neighbours (both
+    // signs) - where an evaluation order that splits degrees from fractions, or goes through an integer
+    // division, differs from raw / 600000
+    {
+        let mut mix = Mix::new(ctx.seed, 0x1a2d);
+        for &t in COORD_TYPES.iter() {
+            let len = layout::standard_lengths(t)[0];
+            for f in c10_fields(t) {
+                if f.path != "longitude" && f.path != "latitude" {
+                    continue;
+                }
+                let unit: i64 = if f.width >= 27 { 600_000 } else { 600 };
+                let half: i64 = 1 << (f.width - 1);
+                let mut vals: Vec<i64> = Vec::new();
+                let mut d = 0i64;
+                while d * unit < half {
+                    vals.push(d * unit);
+                    vals.push(-d * unit);
+                    d += 1;
+                }
+                for k in 0..(f.width - 1) {
+                    for delta in [-1i64, 0, 1] {
+                        vals.push((1i64 << k) + delta);
+                        vals.push(-(1i64 << k) + delta);
+                    }
+                }
+                vals.push(-half);
+                vals.push(half - 1);
+                for v in vals {
+                    if v < -half || v >= half {
+                        continue;
+                    }
+                    let mut b = mix.bytes(len);
+                    set_bits(&mut b, 0, 6, t as u64);
+                    set_bits(&mut b, f.start, f.width, (v as u64) & ((1u64 << f.width) - 1));
+                    let input = Input::Payload { bytes: b };
+                    for cfg in configs() {
+                        ctx.sweep_case("coordinate-landmarks", cfg, &input, check);
+                    }
+                }
+            }
+        }
+        ctx.mark_exhaustive("coordinate-landmarks", "every whole degree and every +-2^k, +-2^k+-1 of every coordinate field of every layout, on the three builds");
+    }
+
     // (c) generated joint assignments through the generic path
     let n = ctx.tier.pick(120_000, 1_000_000);
     ctx.run_proptest("random-assignments", &STD, n, payload_inputs(COORD_TYPES.iter().copied().chain([5u8]).collect(), LenMode::Standard, Prop::C10, 8, 0.10), check);
@@ -217,7 +263,7 @@ pub fn run(ctx: &mut Ctx) {
         let reps = ctx.tier.pick(1, 6);
         for (t, len, part) in crate::gen::payload::pairwise_shapes() {
             
-            for base in 0..3u8 {
+            for base in 0..4u8 {
                 crate::gen::payload::pairwise_specials(t, len, part, if base == 0 { reps } else { 1 }, base, &mut mix, |b| {
                     ctx.sweep_case("pairwise-special-values", &crate::adapter::STD, &Input::Payload { bytes: b }, check);
                 });
